@@ -15,10 +15,9 @@
 package wire
 
 import (
+	"errors"
 	"io"
 	"time"
-
-	gcmn "github.com/dappledger/AnnChain/gemmill/modules/go-common"
 )
 
 /*
@@ -35,7 +34,8 @@ func WriteTime(t time.Time, w io.Writer, n *int, err *error) {
 func ReadTime(r io.Reader, n *int, err *error) time.Time {
 	t := ReadInt64(r, n, err)
 	if t%1000000 != 0 {
-		gcmn.PanicSanity("Time cannot have sub-millisecond precision")
+		setFirstErr(err, errors.New("Time cannot have sub-millisecond precision"))
+		return time.Time{}
 	}
 	return time.Unix(0, t)
 }
